@@ -878,6 +878,9 @@ func init() {
 		for _, rt := range []string{"eds", "cds"} {
 			dumpRace(c, rt)
 		}
+		for _, rt := range []string{"rds", "eds", "cds"} {
+			lockStress(c, rt, 900)
+		}
 		t0 = time.Now()
 		runAll(c)
 		c.count("ms.schedules", int(time.Since(t0).Milliseconds()))
